@@ -6,6 +6,7 @@
 //! (see `text.rs` for the encodings and `run.rs` for what each section observes).
 mod gen;
 mod run;
+mod ser;
 mod text;
 
 use mzkh::Ctx;
@@ -49,6 +50,31 @@ fn main() {
             if line.is_empty() || line.starts_with('#') {
                 continue;
             }
+            if let Some(rest) = line.strip_prefix("dec ") {
+                // `dec [<sizes>] <hex>`: the real read_relation on bytes
+                let h = rest.split(' ').last().unwrap_or("");
+                match text::unhex_bytes(if h == "-" { "" } else { h }) {
+                    None => println!("unparsable: {line}"),
+                    Some(b) => {
+                        let o = ser::dec_case(&b);
+                        println!("{}\n  => {}", o.op_line, o.answer);
+                        for (_, what, d) in o.fails {
+                            println!("  ORACLE-FAIL: {what} {}", d["observed"]);
+                        }
+                    }
+                }
+                continue;
+            }
+            if let Some(rest) = line.strip_prefix("limit ") {
+                println!("{line}\n  => {:?}", ser::limit_probe(rest.trim().parse().expect("number of instructions")));
+                continue;
+            }
+            if let Some(rest) = line.strip_prefix("jsontext ") {
+                // `jsontext <JSON>`: the real ZkirRelation::read on a text
+                let leaked: &'static str = Box::leak(rest.to_string().into_boxed_str());
+                println!("{line}\n  => {:?}", mzkh::catch(|| midnight_zkir::ZkirRelation::read(leaked).map(|r| r.verif_instructions())));
+                continue;
+            }
             let body = line.strip_prefix("run0 ").or(line.strip_prefix("run ")).unwrap_or(line);
             match parse_case_body(body) {
                 None => println!("unparsable: {line}"),
@@ -68,9 +94,30 @@ fn main() {
         return;
     }
     let mut ctx = Ctx::from_args("C18");
-    let fixed = gen::fixed_cases();
-    run_batch(&mut ctx, "fixed", fixed, true);
-    gen::generated(&mut ctx);
+    // H_C18_ONLY=ser: development aid, runs the serialisation sections alone
+    let only_ser = std::env::var("H_C18_ONLY").map(|v| v == "ser").unwrap_or(false);
+    if !only_ser {
+        let fixed = gen::fixed_cases();
+        run_batch(&mut ctx, "fixed", fixed, true);
+        gen::generated(&mut ctx);
+    }
+    // serialisation: decoder / JSON reader correspondence on (mutated) encodings
+    let programs: Vec<Vec<midnight_zkir::Instruction>> = {
+        let mut rng = ctx.rng("c18-ser-programs");
+        (0..400)
+            .map(|i| {
+                let c = gen::random_case(&mut rng, 1 + i % 12, i % 2 == 0);
+                if i % 5 == 4 {
+                    gen::mutate(&mut rng, &c).0.prog
+                } else {
+                    c.prog
+                }
+            })
+            .collect()
+    };
+    ser::dec_cases(&mut ctx, &programs);
+    ser::json_cases(&mut ctx, &programs);
+    ser::limit_oracle(&mut ctx);
     ctx.count_n(
         "mock-verify-panics-while-reporting-a-violated-gate(counted-as-unsat)",
         run::VERIFY_REPORT_PANICS.load(std::sync::atomic::Ordering::Relaxed) as u64,
